@@ -20,8 +20,14 @@ packet model (C01/C02) into the command name, the command Interest and the respo
 `Ndn.NfdBytes`, for every prefix, every ControlParameters field value, every SignatureTime / SignatureNonce and
 every hash function `H` with 32-byte output.
 
-`Cfg.repaired fe` is the code with the candidate fixes C17-1 … C17-5; `Cfg.unchanged fe` is the unchanged
-tree (except that the unchanged legacy `unregister`, which runs outside the semaphore, is not modelled).
+The composed half (section "from the call to the bytes on the face …") runs the state machine between the two:
+reply BYTES (any byte string) are decoded with the packet decoder of C07 and the response decoder above into the
+reply kinds the state machine consumes, and its trace is turned into the command Interest WIRES of the front-end in
+use; the theorems there are about what a forwarder reads from these wires and about which bytes make a call succeed.
+
+`Cfg.repaired fe` is the code as it is now (fixes C17-1 … C17-6 applied): `register` and `unregister` of both
+front-ends go through the command lock.  `Cfg.unchanged fe` is the unchanged tree, including the legacy
+`NDNApp.unregister` that ran outside the semaphore (`Cfg.unregLock = false`, `freeRun`).
 -/
 namespace Ndn.C17
 open Ndn Ndn.NfdMgmt
@@ -79,9 +85,9 @@ theorem never_raises (fe : FrontEnd) (env : Env) (s : St) (evs : List Ev) (r : R
 
 /-- **one_at_a_time.** However many calls are made and whenever: in the trace commands and returns alternate,
     and each return is the return of the call whose command is in flight — never two commands in flight. -/
-theorem one_at_a_time (cfg : Cfg) (env : Env) (t0 : Nat) (evs : List Ev) :
+theorem one_at_a_time (cfg : Cfg) (hl : cfg.unregLock = true) (env : Env) (t0 : Nat) (evs : List Ev) :
     alt none (run cfg env (init t0) evs).2 = some (run cfg env (init t0) evs).1.inflight :=
-  (run_disc cfg env (init t0) evs (fun _ => rfl)).alt
+  (run_disc cfg env (init t0) evs (fun _ => rfl) (init_locked cfg hl t0)).alt
 
 example : alt none [.cmd ⟨0, .register, 1, false⟩ 7, .ret ⟨0, .register, 1, false⟩ (.ok true),
     .cmd ⟨1, .unregister, 1, false⟩ 8] = some (some ⟨1, .unregister, 1, false⟩) := by decide
@@ -89,10 +95,10 @@ example : alt none [.cmd ⟨0, .register, 1, false⟩ 7, .cmd ⟨1, .unregister,
 
 /-- **one_command_per_call.** Every request (`nextId` counts them) has put exactly one command on the wire,
     except those still waiting for the semaphore. -/
-theorem one_command_per_call (cfg : Cfg) (env : Env) (t0 : Nat) (evs : List Ev) :
+theorem one_command_per_call (cfg : Cfg) (hl : cfg.unregLock = true) (env : Env) (t0 : Nat) (evs : List Ev) :
     countCmd (run cfg env (init t0) evs).2 + (run cfg env (init t0) evs).1.queue.length
       = (run cfg env (init t0) evs).1.nextId := by
-  have := (run_disc cfg env (init t0) evs (fun _ => rfl)).count
+  have := (run_disc cfg env (init t0) evs (fun _ => rfl) (init_locked cfg hl t0)).count
   simpa [init] using this
 
 /-- **timestamps_strict.** If the clock advances across every 1 ms sleep of the guard loop, the signed
@@ -100,7 +106,7 @@ theorem one_command_per_call (cfg : Cfg) (env : Env) (t0 : Nat) (evs : List Ev) 
     any replies, and any ticks of the clock between the guarded read, the signed read and the re-read. -/
 theorem timestamps_strict (fe : FrontEnd) (env : Env) (hs : ∀ k, 1 ≤ env.sleepAdv k) (t0 : Nat) (evs : List Ev) :
     List.Pairwise (· < ·) (tsOf (run (Cfg.repaired fe) env (init t0) evs).2) :=
-  (run_trel (Cfg.repaired fe) env ⟨rfl, hs, Or.inl rfl⟩ (init t0) evs (Nat.zero_le _)).strict
+  (run_trel (Cfg.repaired fe) env ⟨rfl, hs, Or.inl rfl⟩ (init t0) evs (Nat.zero_le _) ⟨rfl, rfl⟩).strict
 
 example : tsOf (run (Cfg.repaired .v2) ⟨fun _ => 0, fun _ => 1, fun k => if k = 0 then 1 else 0, fun _ => 0⟩ (init 5)
     [.call .register 0, .call .unregister 1, .reply (.response (some 200) true true), .reply .nack]).2
@@ -108,10 +114,10 @@ example : tsOf (run (Cfg.repaired .v2) ⟨fun _ => 0, fun _ => 1, fun k => if k 
 
 /-- Without the re-read (the unchanged v2 registerer) the same holds only if the clock never ticks between
     the guarded read and the read that is signed. -/
-theorem guard_only_strict_without_sign_tick (cfg : Cfg) (hg : cfg.guard = true) (env : Env)
-    (hs : ∀ k, 1 ≤ env.sleepAdv k) (hz : ∀ k, env.signTick k = 0) (t0 : Nat) (evs : List Ev) :
+theorem guard_only_strict_without_sign_tick (cfg : Cfg) (hg : cfg.guard = true) (hl : cfg.unregLock = true)
+    (env : Env) (hs : ∀ k, 1 ≤ env.sleepAdv k) (hz : ∀ k, env.signTick k = 0) (t0 : Nat) (evs : List Ev) :
     List.Pairwise (· < ·) (tsOf (run cfg env (init t0) evs).2) :=
-  (run_trel cfg env ⟨hg, hs, Or.inr hz⟩ (init t0) evs (Nat.zero_le _)).strict
+  (run_trel cfg env ⟨hg, hs, Or.inr hz⟩ (init t0) evs (Nat.zero_le _) (init_locked cfg hl t0)).strict
 
 /-- **guard_only_counterexample** (finding F13, third item). On the unchanged tree the guard compares a clock
     reading taken before the one that is signed: a monotone clock that advances across every sleep, ticks once
@@ -130,26 +136,58 @@ theorem no_guard_counterexample :
     tsOf (run (Cfg.unchanged .legacy) ⟨fun _ => 0, fun _ => 1, fun _ => 0, fun _ => 0⟩ (init 5)
       [.call .register 0, .call .register 1, .reply (.response (some 200) true true)]).2 = [5, 5] := by decide
 
+/-- **unregister_takes_the_lock.** In the code as it is now, on both front-ends, a call of `unregister` goes exactly
+    the way a call of `register` goes: it queues for the command lock, waits for a fresh millisecond, signs, sends
+    and waits for its reply under the lock (`submit`).  So `one_at_a_time`, `one_command_per_call` and
+    `timestamps_strict` above speak about registrations and unregistrations of both front-ends alike. -/
+theorem unregister_takes_the_lock (fe : FrontEnd) (env : Env) (s : St) (v : Verb) (p : Nat) :
+    step (Cfg.repaired fe) env s (.call v p) = submit (Cfg.repaired fe) env s v p false :=
+  step_call (Cfg.repaired fe) rfl env s v p
+
+/-- … and nothing is ever in flight outside the lock: in every history the list of commands sent outside the
+    semaphore stays empty. -/
+theorem nothing_outside_the_lock (cfg : Cfg) (hl : cfg.unregLock = true) (env : Env) (t0 : Nat) (evs : List Ev) :
+    (run cfg env (init t0) evs).1.free = [] := by
+  suffices h : ∀ s, Locked cfg s → (run cfg env s evs).1.free = [] from h _ (init_locked cfg hl t0)
+  induction evs with
+  | nil => intro s hk; exact hk.2
+  | cons e es ih => intro s hk; exact ih _ (step_locked cfg env s e hk)
+
+/-- **unchanged_legacy_unregister_overlaps** (the defect repaired by C17-5 / fix 754fd1f, now inside the model).
+    The unchanged legacy `NDNApp.unregister` ran outside the semaphore and without the timestamp guard: an
+    `unregister` issued while a registration is in flight puts a second command on the wire (the trace violates
+    the one-at-a-time discipline), and two `unregister` calls at one clock reading carry the same timestamp. -/
+theorem unchanged_legacy_unregister_overlaps :
+    alt none (run (Cfg.unchanged .legacy) ⟨fun _ => 0, fun _ => 1, fun _ => 0, fun _ => 0⟩ (init 5)
+      [.call .register 0, .call .unregister 1]).2 = none ∧
+    tsOf (run (Cfg.unchanged .legacy) ⟨fun _ => 0, fun _ => 1, fun _ => 0, fun _ => 0⟩ (init 5)
+      [.call .unregister 0, .call .unregister 1]).2 = [5, 5] ∧
+    (run (Cfg.unchanged .legacy) ⟨fun _ => 0, fun _ => 1, fun _ => 0, fun _ => 0⟩ (init 5)
+      [.call .register 0, .call .unregister 1, .call .unregister 2, .replyU 1 (.response (some 404) false true)]).2
+      = [.cmd ⟨0, .register, 0, false⟩ 5, .cmd ⟨1, .unregister, 1, false⟩ 5, .cmd ⟨2, .unregister, 2, false⟩ 5,
+         .ret ⟨2, .unregister, 2, false⟩ (.ok true)] := by
+  decide
+
 /-- **routes_conserved.** After a connection is established (with no starting task still running) the route
     registrations on the wire, those waiting for the semaphore and those not yet requested are, in this order,
     exactly the declared routes — whatever calls and replies are interleaved.  In particular no route is ever
     registered twice on a connection. -/
-theorem routes_conserved (fe : FrontEnd) (env : Env) (s : St) (hw : WF s) (ha : autoActive s = false)
-    (rs : List Nat) (evs : List Ev) (hne : NoConnect evs) :
+theorem routes_conserved (fe : FrontEnd) (env : Env) (s : St) (hw : WF s) (hf : s.free = [])
+    (ha : autoActive s = false) (rs : List Nat) (evs : List Ev) (hne : NoConnect evs) :
     autoCmds (run (Cfg.repaired fe) env s (.connect rs :: evs)).2
       ++ autoOpen (run (Cfg.repaired fe) env s (.connect rs :: evs)).1 = rs := by
   obtain ⟨h1, h2⟩ := connect_rrel (Cfg.repaired fe) env s rs ha hw
-  have h3 := run_rrel (Cfg.repaired fe) rfl rfl env _ evs hne h2
+  have h3 := run_rrel (Cfg.repaired fe) rfl rfl env _ evs hne h2 (step_locked _ env s _ ⟨rfl, hf⟩)
   simp only [run]
   rw [autoCmds_append, List.append_assoc, h3.cons, h1]
 
 /-- **routes_once_per_connection.** … hence once the starting task has nothing left to do, every declared
     route has been registered exactly once, in declaration order. -/
-theorem routes_once_per_connection (fe : FrontEnd) (env : Env) (s : St) (hw : WF s) (ha : autoActive s = false)
-    (rs : List Nat) (evs : List Ev) (hne : NoConnect evs)
+theorem routes_once_per_connection (fe : FrontEnd) (env : Env) (s : St) (hw : WF s) (hf : s.free = [])
+    (ha : autoActive s = false) (rs : List Nat) (evs : List Ev) (hne : NoConnect evs)
     (hdone : autoOpen (run (Cfg.repaired fe) env s (.connect rs :: evs)).1 = []) :
     autoCmds (run (Cfg.repaired fe) env s (.connect rs :: evs)).2 = rs := by
-  have := routes_conserved fe env s hw ha rs evs hne
+  have := routes_conserved fe env s hw hf ha rs evs hne
   rw [hdone, List.append_nil] at this
   exact this
 
@@ -162,7 +200,7 @@ theorem routes_registered_after_replies (fe : FrontEnd) (env : Env) (t0 : Nat) (
     intro e he rs' hc
     obtain ⟨k, _, hk⟩ := List.mem_map.mp he
     rw [← hk] at hc; cases hc
-  apply routes_once_per_connection fe env (init t0) (fun _ => rfl) rfl rs _ hne
+  apply routes_once_per_connection fe env (init t0) (fun _ => rfl) rfl rfl rs _ hne
   cases rs with
   | nil =>
     simp only [run]
@@ -393,6 +431,295 @@ example : legacyCommandName (fun _ => List.replicate 32 7) true ribB registerB (
          8 :: 34 :: 23 :: 32 :: List.replicate 32 7] := by rfl
 
 end Bytes
+
+/-! ### from the call to the bytes on the face, and from the bytes that come back to the result
+    (the composed model `Ndn.NfdBytes.runW` = reply bytes ↦ reply kinds, the state machine, trace ↦ command wires) -/
+section Composed
+open Ndn.Codec Ndn.Packet Ndn.NfdBytes
+
+/-- `/localhost|localhop/nfd/rib/<verb>` -/
+def ribHead (isLocal : Bool) (v : Verb) : List Bytes :=
+  [tlv 8 (if isLocal then localhostB else localhopB), tlv 8 nfdB, tlv 8 ribB, tlv 8 (verbB v)]
+
+/-- what a forwarder finds when it decodes a command Interest of the signed-Interest format (`NfdRegister`) -/
+def AcceptsV2 (H : Bytes → Bytes) (isLocal : Bool) (wire : Bytes) (v : Verb) (pfx : List Bytes) (ts : Nat) : Prop :=
+  ∃ vals ptrs n d nonce, parseInterest wire = .ok (vals, ptrs) ∧
+    vals[7]? = some (.name (n ++ [2 :: 32 :: d])) ∧ n.length = 5 ∧ n.take 4 = ribHead isLocal v ∧
+    decodeCommandParams n = .ok [.model (cpvOf pfx noKw)] ∧
+    (decodeCommandParams n).toOption.bind namedPrefix = some pfx ∧
+    vals[16]? = some (.bytes []) ∧ vals[17]? = some (digestSigInfo ts nonce) ∧
+    paramsCheck H ptrs = true ∧ ptrs.sigValue = some (H (concatB ptrs.sigCovered)) ∧
+    verifyPtrs (digestScheme H) ptrs = true
+
+/-- … and of the signed-name format (legacy `NDNApp`) -/
+def AcceptsLegacy (H : Bytes → Bytes) (isLocal : Bool) (wire : Bytes) (v : Verb) (pfx : List Bytes) (ts : Nat) : Prop :=
+  ∃ vals ptrs n, parseInterest wire = .ok (vals, ptrs) ∧ vals[7]? = some (.name n) ∧
+    n.take 4 = ribHead isLocal v ∧
+    decodeCommandParams n = .ok [.model (cpvOf pfx noKw)] ∧
+    (decodeCommandParams n).toOption.bind namedPrefix = some pfx ∧
+    (n[5]?.map fun c => beVal (compValue c)) = some ts ∧
+    legacySigOk H n = true ∧ vals.drop 14 = List.replicate 6 Value.none
+
+def Accepts (fe : FrontEnd) (H : Bytes → Bytes) (isLocal : Bool) (wire : Bytes) (v : Verb) (pfx : List Bytes)
+    (ts : Nat) : Prop :=
+  match fe with
+  | .v2 => AcceptsV2 H isLocal wire v pfx ts
+  | .legacy => AcceptsLegacy H isLocal wire v pfx ts
+
+/-- **emitted_command_accepted.** The wire of a command — verb `v`, prefix number `p`, signed timestamp `ts`, the
+    k-th command of a run — is produced without error, and a forwarder that decodes it with the packet decoder
+    (`parse_interest`, C07) and the ControlParameters decoder (C08) finds: the command name
+    `/localhost|localhop/nfd/rib/<v>`, ControlParameters that name exactly the requested prefix and carry nothing
+    else, and — `NfdRegister`: empty ApplicationParameters, a valid ParametersSha256Digest, SignatureInfo
+    DigestSha256 whose SignatureTime is `ts`, and a signature value that is `H` of the signed portion the parser
+    reports; legacy `NDNApp`: the timestamp component holding `ts`, a SignatureValue component that is `H` of the
+    eight components before it, and no Interest parameters or Interest signature.  The timestamp a forwarder reads
+    back (`wireTs`) is `ts`.  For every prefix of well-formed components below 2^62 bytes, every 32-bit Nonce,
+    64-bit SignatureNonce and every `ts` below 2^64, every `H` with 32-byte output. -/
+theorem emitted_command_accepted (w : Wire) (g : Good w) (fe : FrontEnd) (k : Nat) (v : Verb) (p ts : Nat)
+    (hts : ts < 2 ^ 64) :
+    ∃ wire, cmdWire w fe k v p ts = .ok wire ∧ Accepts fe w.H w.isLocal wire v (w.pfxName p) ts ∧
+      wireTs fe wire = some ts := by
+  have hsz := g.pfxSize p
+  have hn : commandName w.isLocal ribB (verbB v) (cpvOf (w.pfxName p) noKw) = .ok (ribName w.isLocal v (w.pfxName p)) :=
+    ribCommandName_eq w.isLocal v (w.pfxName p) (by omega)
+  have hfit := fits_cpv_name (w.pfxName p) (g.pfxOk p)
+  obtain ⟨c1, c2, c3, c4⟩ := command_names_prefix w.isLocal ribB (verbB v) (w.pfxName p) noKw _ hfit hn
+  cases fe with
+  | v2 =>
+    obtain ⟨wire, vals, ptrs, d, h1, h2, h7, _, h16, h17, h5, h6, h8⟩ := cmdWire_v2 w g k v p ts hts
+    exact ⟨wire, h1, ⟨vals, ptrs, _, d, _, h2, h7, c1, c2, c3, c4, h16, h17, h5, h6, h8⟩,
+      wireTs_v2 wire vals ptrs ts _ h2 h17⟩
+  | legacy =>
+    obtain ⟨wire, ptrs, h1, h2⟩ := cmdWire_legacy w g k v p ts hts
+    have hl := legacyCommandName_eq w.H w.isLocal v (w.pfxName p) ts (w.nonce64 k) (by omega) hts (g.n64 k)
+    obtain ⟨n5, _, _, _, _, _, hsig⟩ := legacy_command_name w.H g.hH w.isLocal ribB (verbB v) _ ts (w.nonce64 k) _ hl
+    have hdec : decodeCommandParams (legacyName w.H w.isLocal v (w.pfxName p) ts (w.nonce64 k)) =
+        decodeCommandParams (ribName w.isLocal v (w.pfxName p)) := by
+      simp [decodeCommandParams, legacyName, ribName, commandHead]
+    refine ⟨wire, h1, ⟨_, ptrs, _, h2, by simp, ?_, by rw [hdec]; exact c3, by rw [hdec]; exact c4, ?_, hsig, by simp [cmdMid]⟩,
+      wireTs_legacy wire ptrs _ _ _ _ ts _ _ hts h2⟩
+    · simp [legacyName, ribName, commandHead, ribHead]
+    · rw [legacyName_5]
+      simp only [Option.map_some]
+      rw [compValue_tlv 8 _ (by decide) (by rw [be8_length]; decide), beVal_be8 ts (by simpa using hts)]
+
+/-- **every_emitted_wire_accepted.** In every history of the composed model (calls, connections, Nacks, timeouts
+    and reply BYTES of any content, in any order), for either front-end: the i-th wire on the face is the wire of the
+    i-th command of the state machine, it was produced without error, and a forwarder decoding it finds the
+    requested verb, exactly the requested prefix, a valid digest and signature and the signed timestamp
+    (`Accepts`) — while the clock stays below 2^64 ms. -/
+theorem every_emitted_wire_accepted (cfg : Cfg) (env : Env) (w : Wire) (g : Good w) (s : St) (evs : List WEv)
+    (hts : ∀ ts ∈ tsOf (runW cfg env w s evs).2.1, ts < 2 ^ 64)
+    (i : Nat) (r : Req) (ts : Nat) (hi : (cmdsOf (runW cfg env w s evs).2.1)[i]? = some (r, ts)) :
+    ∃ wire, (runW cfg env w s evs).2.2[i]? = some (.ok wire) ∧
+      Accepts cfg.fe w.H w.isLocal wire r.verb (w.pfxName r.pfx) ts := by
+  have hlt : ts < 2 ^ 64 := by
+    apply hts
+    rw [tsOf_cmdsOf]
+    exact List.mem_map.mpr ⟨(r, ts), List.mem_of_getElem? hi, rfl⟩
+  obtain ⟨wire, h1, h2, _⟩ := emitted_command_accepted w g cfg.fe (0 + i) r.verb r.pfx ts hlt
+  refine ⟨wire, ?_, h2⟩
+  have := wiresFrom_getElem w cfg.fe (runW cfg env w s evs).2.1 0 i r ts hi
+  rw [h1] at this
+  exact this
+
+/-- **wire_timestamps_strict.** … and the timestamps a forwarder reads back from the emitted wires, in emission
+    order, are strictly increasing: every command of the history is on the face as a wire (`ws`), each wire
+    carries a readable timestamp, and these timestamps increase strictly — registrations and unregistrations of
+    both front-ends, any number of calls at one clock reading, under the clock hypothesis of `timestamps_strict`. -/
+theorem wire_timestamps_strict (fe : FrontEnd) (env : Env) (hs : ∀ k, 1 ≤ env.sleepAdv k) (w : Wire) (g : Good w)
+    (t0 : Nat) (evs : List WEv)
+    (hts : ∀ ts ∈ tsOf (runW (Cfg.repaired fe) env w (init t0) evs).2.1, ts < 2 ^ 64) :
+    ∃ (ws : List Bytes) (tss : List Nat), (runW (Cfg.repaired fe) env w (init t0) evs).2.2 = ws.map Except.ok ∧
+      ws.map (wireTs fe) = tss.map some ∧ List.Pairwise (· < ·) tss := by
+  obtain ⟨ws, h1, h2⟩ := wiresFrom_ts w g fe _ 0 hts
+  exact ⟨ws, _, h1, h2, timestamps_strict fe env hs t0 _⟩
+
+/-- the bytes of a reply say "status 200" -/
+def wire200 (fe : FrontEnd) (H : Bytes → Bytes) (b : Bytes) : Bool :=
+  match parseData b with
+  | .error _ => false
+  | .ok (vs, ptrs) =>
+    (match bytesOf vs[7]? with
+     | none => false
+     | some c =>
+       match parseResponse true c with
+       | .ok d => d.lookup "status_code" == some (DVal.uint 200)
+       | .error _ => false) &&
+    (match fe with | .v2 => true | .legacy => digestSigOk H vs ptrs)
+
+/-- the dict `parse_response` returns shows status 200 exactly when the decoded StatusCode is 200 -/
+theorem status_lookup (r : ControlResponseRec) :
+    (match parseResponseRec true r with
+     | .ok d => d.lookup "status_code" == some (DVal.uint 200)
+     | .error _ => false) = (r.statusCode == some 200) := by
+  obtain ⟨d, hd, hc, _, _⟩ := response_roundtrip r
+  rw [hd]
+  simp only [hc]
+  cases r.statusCode with
+  | none => rfl
+  | some n =>
+    show (DVal.uint n == DVal.uint 200) = (some n == some 200)
+    by_cases h : n = 200
+    · subst h; simp
+    · have h1 : (DVal.uint n == DVal.uint 200) = false := by
+        apply beq_false_of_ne; intro e; cases e; exact h rfl
+      have h2 : (some n == some 200) = false := by
+        apply beq_false_of_ne; intro e; cases e; exact h rfl
+      rw [h1, h2]
+
+/-- what the receive path takes a reply for (`replyOfData`) answers "200" exactly when the bytes say so: they are a
+    Data packet (`parse_data`), `parse_response` of its Content returns a dict whose `status_code` is 200, and — on
+    the front-end that validates — its DigestSha256 signature verifies -/
+theorem answers200_wire200 (fe : FrontEnd) (H : Bytes → Bytes) (b : Bytes) (k : Reply)
+    (h : replyOfData H b = some k) : answers200 fe k = wire200 fe H b := by
+  unfold replyOfData at h
+  unfold wire200
+  cases hp : parseData b with
+  | error e => rw [hp] at h; cases h
+  | ok r =>
+    obtain ⟨vs, ptrs⟩ := r
+    rw [hp] at h
+    simp only [Option.some.injEq] at h
+    subst h
+    simp only []
+    cases hc : bytesOf vs[7]? with
+    | none => cases fe <;> simp [answers200]
+    | some c =>
+      simp only []
+      rw [parseResponse_eq]
+      cases hr : contentRec c with
+      | error e => cases fe <;> simp [answers200, bind, Except.bind]
+      | ok rec =>
+        have := status_lookup rec
+        simp only [bind, Except.bind] at this ⊢
+        rw [this]
+        cases fe <;> simp [answers200]
+
+/-- **reply_wire_decides.** (success iff the reply wire decodes to status 200; total over `List UInt8`.)  While a
+    command is in flight, for EVERY byte string that arrives as the answer: either it is not a Data packet — the
+    receive loop drops it, nothing happens, the command stays in flight — or the call whose command is in flight
+    returns, first thing, normally, with `True` exactly when the bytes say "status 200" (`wire200`), `False`
+    otherwise. -/
+theorem reply_wire_decides (fe : FrontEnd) (env : Env) (w : Wire) (s : St) (r : Req) (b : Bytes)
+    (h : s.inflight = some r) :
+    (replyOfData w.H b = none → runW (Cfg.repaired fe) env w s [.data b] = (s, [], [])) ∧
+    (replyOfData w.H b ≠ none →
+      (runW (Cfg.repaired fe) env w s [.data b]).2.1.head? = some (.ret r (.ok (wire200 fe w.H b)))) := by
+  constructor
+  · intro hn
+    simp [runW, absEv, hn, run, wiresFrom]
+  · intro hn
+    cases hk : replyOfData w.H b with
+    | none => exact absurd hk hn
+    | some k =>
+      have := reply_returns fe env s r k h
+      rw [answers200_wire200 fe w.H b k hk] at this
+      simp only [runW, List.filterMap_cons, absEv, hk, Option.map_some, List.filterMap_nil, run, List.append_nil]
+      exact this
+
+/-- **reply_bytes_never_raise.** In every history of the composed model — whatever bytes come back, malformed in
+    any way — every call returns normally. -/
+theorem reply_bytes_never_raise (fe : FrontEnd) (env : Env) (w : Wire) (s : St) (evs : List WEv) (r : Req)
+    (res : Except PyErr Bool) (h : Out.ret r res ∈ (runW (Cfg.repaired fe) env w s evs).2.1) : ∃ b, res = .ok b :=
+  never_raises fe env s _ r res h
+
+/-- **forwarder_answer_decides.** End to end from the forwarder's side: it encodes a ControlResponse (any status
+    code, text, body legal for their fields), wraps it in element 0x65, puts that as Content into a Data packet
+    under any name, signs with DigestSha256 (`forwarderData`).  Fed these bytes, the receive path sees a
+    ControlResponse with exactly that status code whose signature verifies, and the call in flight returns `True`
+    if and only if the status code that was encoded is 200. -/
+theorem forwarder_answer_decides (fe : FrontEnd) (env : Env) (w : Wire) (hH : ∀ x, (w.H x).length = 32)
+    (s : St) (r : Req) (h : s.inflight = some r)
+    (name : List Bytes) (hname : name.all compOk = true)
+    (code : Option Nat) (text : Option Bytes) (body : Option (List Value)) (content p : Bytes)
+    (hfit : fitsFs crFs (crValues code text body) = true) (henc : encodeResponse code text body = .ok content)
+    (hp : encFields [nameS, metaS, contentS, dataSigInfoS] [.name name, .none, .bytes content, .model legacySigInfo] = .ok p)
+    (hsz : p.length < 2 ^ 63) :
+    ∃ wire, forwarderData w.H name content = .ok wire ∧
+      replyOfData w.H wire = some (.response code body.isSome true) ∧
+      wire200 fe w.H wire = (code == some 200) ∧
+      (runW (Cfg.repaired fe) env w s [.data wire]).2.1.head? = some (.ret r (.ok (code == some 200))) := by
+  obtain ⟨h1, h2⟩ := replyOfData_forwarder w.H hH name content p hname hp hsz
+  obtain ⟨⟨v, hv, hpv⟩, _⟩ := parseResponse_encode code text body content hfit henc true
+  have hrec : contentRec content = .ok ⟨code, text, body.map (bodyFields cpvFields)⟩ := by
+    unfold contentRec
+    simp only [hv, hpv, bind, Except.bind, pure, Except.pure, recOfValues_crValues]
+  rw [hrec] at h2
+  have h2' : replyOfData w.H (tlv 6 (p ++ tlv 23 (w.H p))) = some (.response code body.isSome true) := by
+    rw [h2]; cases body <;> rfl
+  have h200 : wire200 fe w.H (tlv 6 (p ++ tlv 23 (w.H p))) = (code == some 200) := by
+    rw [← answers200_wire200 fe w.H _ _ h2']
+    cases fe <;> simp [answers200]
+  refine ⟨_, h1, h2', h200, ?_⟩
+  have := (reply_wire_decides fe env w s r (tlv 6 (p ++ tlv 23 (w.H p))) h).2 (by rw [h2']; simp)
+  rw [h200] at this
+  exact this
+
+/-- the Python class a decoding error of the model stands for, as it is written in the `except` clauses -/
+def pyClass : PyErr → String
+  | .structError => "error"          -- `struct.error`
+  | e => e.name
+
+/-- **reply_decode_errors_are_caught.** Whatever the Content bytes are, the only exceptions `parse_response` can
+    raise on them are the documented decoding errors (C07 totality of the decoders), and every one of these
+    classes is named in `MALFORMED_RESPONSE` (what `NfdRegister.register/unregister` catch around `parse_response`)
+    and in the `except` clauses of the legacy `NDNApp.register/unregister` — tables regenerated from the source. -/
+theorem reply_decode_errors_are_caught (c : Bytes) (e : PyErr) (h : parseResponse true c = .error e) :
+    docErr e = true ∧ pyClass e ∈ Ndn.Gen.C17.malformedResponse ∧
+    ∀ row ∈ Ndn.Gen.C17.caught, (row.1 = "app.register" ∨ row.1 = "app.unregister") → pyClass e ∈ row.2 := by
+  have hd : docErr e = true := by
+    rw [parseResponse_eq] at h
+    cases hc : contentRec c with
+    | error e' =>
+      rw [hc] at h
+      simp only [bind, Except.bind, Except.error.injEq] at h
+      subst h
+      exact contentRec_doc c _ hc
+    | ok r =>
+      rw [hc] at h
+      obtain ⟨d, hd, _⟩ := response_roundtrip r
+      simp only [bind, Except.bind] at h
+      rw [hd] at h; cases h
+  refine ⟨hd, ?_⟩
+  cases e <;> first | (simp [docErr] at hd; done) | decide
+
+/-! non-vacuity of the composed theorems: a concrete run -/
+/-- `H` = the constant 32-byte string, one prefix `/a`, Nonce 5, SignatureNonce 9 -/
+def exW : Wire := { H := fun _ => List.replicate 32 7, isLocal := true, pfxName := fun _ => [[8, 1, 97]],
+                    nonce32 := fun _ => 5, nonce64 := fun _ => 9 }
+
+example : Good exW :=
+  ⟨fun _ => rfl, fun _ => rfl, fun _ => (by decide : ([8, 1, 97] : Bytes).length < 2 ^ 62),
+   fun _ => (by decide : 5 < 2 ^ 32), fun _ => (by decide : 9 < 2 ^ 64)⟩
+
+set_option maxRecDepth 8000 in
+example : cmdWire exW .legacy 0 .unregister 0 1700 =
+    .ok [5, 117, 7, 105, 8, 9, 108, 111, 99, 97, 108, 104, 111, 115, 116, 8, 3, 110, 102, 100, 8, 3, 114, 105, 98, 8,
+      10, 117, 110, 114, 101, 103, 105, 115, 116, 101, 114, 8, 7, 104, 5, 7, 3, 8, 1, 97, 8, 8, 0, 0, 0, 0, 0, 0, 6, 164, 8,
+      8, 0, 0, 0, 0, 0, 0, 0, 9, 8, 5, 22, 3, 27, 1, 0, 8, 34, 23, 32, 7, 7, 7, 7, 7, 7, 7, 7, 7, 7, 7, 7, 7, 7, 7, 7, 7, 7,
+      7, 7, 7, 7, 7, 7, 7, 7, 7, 7, 7, 7, 7, 7, 10, 4, 0, 0, 0, 5, 12, 2, 3, 232] := by rfl
+
+set_option maxRecDepth 8000 in
+example : ((cmdWire exW .v2 0 .register 0 1700).toOption.bind (wireTs .v2),
+           (cmdWire exW .legacy 0 .unregister 0 1700).toOption.bind (wireTs .legacy)) = (some 1700, some 1700) := by rfl
+
+set_option maxRecDepth 8000 in
+example : (forwarderData exW.H [[8, 1, 97]] [101, 3, 102, 1, 200]).toOption.bind (replyOfData exW.H) =
+    some (.response (some 200) false true) := by rfl
+
+/-- a history on the legacy front-end: two calls at one clock reading; garbage bytes arrive (dropped), then a Data
+    whose Content says 200 (the registration returns `True`, the unregistration goes out one millisecond later),
+    then a Nack (the unregistration returns `False`) -/
+example : (runW (Cfg.repaired .legacy) ⟨fun _ => 0, fun _ => 1, fun _ => 0, fun _ => 0⟩ exW (init 5)
+    [.call .register 0, .call .unregister 0, .data [1, 2, 3],
+     .data [6, 51, 7, 3, 8, 1, 97, 21, 5, 101, 3, 102, 1, 200, 22, 3, 27, 1, 0, 23, 32, 7, 7, 7, 7, 7, 7, 7, 7, 7, 7, 7,
+            7, 7, 7, 7, 7, 7, 7, 7, 7, 7, 7, 7, 7, 7, 7, 7, 7, 7, 7, 7, 7], .nack]).2.1 =
+    [.cmd ⟨0, .register, 0, false⟩ 5, .ret ⟨0, .register, 0, false⟩ (.ok true),
+     .cmd ⟨1, .unregister, 0, false⟩ 6, .ret ⟨1, .unregister, 0, false⟩ (.ok false)] := by rfl
+
+end Composed
 
 /-! ### the defects of the unchanged tree (finding F13), as theorems about the unrepaired configurations -/
 
